@@ -1,4 +1,6 @@
+mod ast;
 mod framework;
+mod pipe;
 mod probe;
 mod props;
 mod rng;
